@@ -3,6 +3,11 @@
 import json, os
 here = os.path.dirname(os.path.abspath(__file__))
 tbl = json.load(open(os.path.join(here, "checks.json")))
+import glob
+for f in sorted(glob.glob(os.path.join(here, "checks.d", "C*.json"))):
+    i = os.path.basename(f)[:-5]
+    if os.path.isdir(os.path.join(here, "harness", "cmd", i.lower())):
+        tbl["claimed"][i] = json.load(open(f))
 props = [json.loads(l) for l in open(os.path.join(here, "properties.jsonl")) if l.strip()]
 checks, na = [], []
 for p in props:
